@@ -1,6 +1,7 @@
 package props
 
 import (
+	"time"
 	"encoding/json"
 	"fmt"
 	nurl "net/url"
@@ -181,7 +182,7 @@ func genC11(t *rapid.T) *Case {
 	h := rapid.IntRange(2, 10).Draw(t, "hist")
 	for i := 0; i < h; i++ {
 		ex.History = append(ex.History, c11Step{Doc: rapid.IntRange(0, n-1).Draw(t, "hdoc"),
-			Entry: rapid.SampledFrom([]string{"apply", "apply-shared-tree", "reader", "file", "apply"}).Draw(t, "entry")})
+			Entry: rapid.SampledFrom([]string{"apply", "apply-shared-tree", "reader", "file", "apply", "url"}).Draw(t, "entry")})
 	}
 	c := &Case{Property: "C11"}
 	c.SetExtra(ex)
@@ -197,6 +198,7 @@ func checkC11(c *Case) (*Violation, caseInfo) {
 		return nil, info
 	}
 	model := make([]string, len(ex.Docs))
+	modelURL := make([]string, len(ex.Docs)) // first result of the "url" entry per document (its page URL is the loopback address)
 	shared := make([]*html.Node, len(ex.Docs))
 	run := func(i int, entry string) (string, bool) {
 		d := ex.Docs[i]
@@ -218,6 +220,31 @@ func checkC11(c *Case) (*Violation, caseInfo) {
 			os.WriteFile(f, []byte(d.Bytes()), 0o644)
 			out = guarded(0, func() (*distiller.Result, error) { return distiller.ApplyForFile(f, d.Opts.Build()) })
 			os.Remove(f)
+		case "url":
+			// ApplyForURL with the caller's options (nil included): its result has the loopback
+			// address as page URL, so it has a model of its own; what matters is that the calls
+			// after it still give their first results
+			server, err := pageServer()
+			if err != nil || server == nil || d.Legacy {
+				return model[i], true
+			}
+			path := "/c11/" + shortHash(d.HTML) + "/page.html"
+			srvPages.Store(path, d.HTML)
+			out = guarded(0, func() (*distiller.Result, error) { return distiller.ApplyForURL(server.URL+path, 10*time.Second, d.Opts.Build()) })
+			if out.Panicked {
+				return "", false
+			}
+			got := "error"
+			if out.Err == nil && out.Res != nil {
+				got = canonical(out.Res)
+			}
+			if modelURL[i] == "" {
+				modelURL[i] = got
+			}
+			if got != modelURL[i] {
+				return "url-entry-differs: " + diffFields(modelURL[i], got), true
+			}
+			return model[i], true
 		case "apply-shared-tree":
 			if shared[i] == nil {
 				shared[i], _ = refParse(d.HTML)
